@@ -122,7 +122,7 @@ Begin ==
   /\ \E o \in (IF Overflow THEN BOOLEAN ELSE {FALSE}) :
        /\ tx' = [pc |-> "body", root |-> cm.root, w |-> EmptyFn, new |-> {}, freed |-> {}, flushed |-> {},
                  walNew |-> EmptyFn, walRel |-> {}, mFreed |-> {}, mAlloc |-> {}, al0 |-> al, cs |-> None,
-                 force |-> FALSE, ovf |-> o]
+                 force |-> FALSE, ovf |-> o, ckpt |-> FALSE]
        /\ stats' = [stats EXCEPT !.ovf = @ \/ o]
   /\ ntx' = ntx + 1 /\ nops' = 0
   /\ lk' = [lk EXCEPT !.res = TRUE]
@@ -192,6 +192,21 @@ Flush ==   \* Tx.Flush in the body
      /\ r.ok
      /\ tx' = r.t /\ al' = r.a /\ pend' = r.pw
   /\ UNCHANGED <<cm, rds, wm, hdr, lk, stats, dur, cd, inflight, maybe, ntx, ver>>
+
+\* Tx.CheckpointWAL in the body: the contents of every overwrite page whose page is not dirty
+\* in this transaction are copied back to the page (written at once, before the commit), the
+\* mapping entry and the overwrite page are released by the commit.  Only the first call acts.
+Checkpoint ==
+  /\ InBody /\ Op /\ ~tx.ckpt
+  /\ LET S == {p \in (DOMAIN wm.map) \ tx.walRel : p \notin DOMAIN tx.w}
+         RECURSIVE Copies(_, _)
+         Copies(pw, T) == IF T = {} THEN pw
+                          ELSE LET p == MinOf(T) IN Copies(Append(pw, <<p, At(Vol, wm.map[p])>>), T \ {p})
+     IN
+     /\ S # {}
+     /\ pend' = Copies(pend, S)
+     /\ tx' = [tx EXCEPT !.walRel = @ \cup S, !.mFreed = @ \cup {wm.map[p] : p \in S}, !.ckpt = TRUE]
+  /\ UNCHANGED <<cm, rds, al, wm, hdr, lk, stats, dur, cd, inflight, maybe, ntx, ver>>
 
 (***************************************************************************)
 (* Abort                                                                   *)
@@ -388,7 +403,7 @@ ResizeHdr(m) ==
   /\ tx = NoTx /\ DOMAIN rds = {} /\ pend = <<>> /\ ntx < MaxTx /\ m # al.max
   /\ tx' = [pc |-> "rzhdr", root |-> cm.root, w |-> EmptyFn, new |-> {}, freed |-> {}, flushed |-> {},
             walNew |-> EmptyFn, walRel |-> {}, mFreed |-> {}, mAlloc |-> {}, al0 |-> al, cs |-> [m |-> m],
-            force |-> TRUE, ovf |-> FALSE]
+            force |-> TRUE, ovf |-> FALSE, ckpt |-> FALSE]
   /\ pend' = <<<<1 - hdr.slot, [k |-> "H", ok |-> TRUE, txid |-> hdr.txid + 1, root |-> hdr.root, fl |-> hdr.fl,
                                wal |-> hdr.wal, dEnd |-> hdr.dEnd, mEnd |-> hdr.mEnd, mTot |-> hdr.mTot, max |-> m]>>>>
   /\ inflight' = cm
@@ -420,7 +435,7 @@ ResizeSync ==
 Next ==
   \/ \E m \in Sizes : ResizeHdr(m)
   \/ ResizeSync
-  \/ Begin \/ AllocPage \/ Flush \/ Rollback
+  \/ Begin \/ AllocPage \/ Flush \/ Checkpoint \/ Rollback
   \/ \E p \in 2..(NP - 1) : WritePage(p) \/ FreePage(p) \/ SetRoot(p)
   \/ SetRoot(0)
   \/ CFlush \/ CPrepare \/ CAllocMeta \/ CSerialize \/ CSync1 \/ CHeader \/ CSync2 \/ CSwitch \/ CDone
